@@ -8,6 +8,7 @@ import sys
 from sismic.model import Statechart
 
 from .. import gen, oracles, engine
+from ..decode import chart_from_json
 from ..encode import ChartEnc
 from ..framework import Case
 from ..interp_prop import InterpProp
@@ -110,6 +111,17 @@ class C07(InterpProp):
             g = gen.ChartGen(rnd, kn)
             sc = g.build()
             ops1 = None
+        history = None
+        if rnd.random() < 0.12:
+            # the first chart has a past (used, restructured through the editing API); its twin is built
+            # afresh in the final shape: same structure, different construction history
+            base = ChartEnc(sc).json
+            gen.warm(sc)
+            edits = gen.plan_edits(rnd, sc, True)
+            if edits is None:
+                sc = chart_from_json(base)
+            else:
+                history = {'base': base, 'edits': edits}
         sc2 = twin(sc, rnd)
         e1, e2 = ChartEnc(sc), ChartEnc(sc2)
         if ops1 is None:
@@ -123,7 +135,20 @@ class C07(InterpProp):
         deep = any(st['kind'] == 'deep' for st in e1.json['states'])
         payload = {'kind': 'interp', 'charts': [e1.json, e2.json], 'ops': ops, 'deep': deep,
                    'hashseed': rnd.randint(1, 4000) if deep else rnd.choice([None] * 3 + [rnd.randint(1, 4000)])}
+        if history:
+            payload['history'] = history
         return Case(payload, {'charts': [sc, sc2]}, model_ok=e1.supported and e2.supported)
+
+    def rebuild(self, payload):
+        h = payload.get('history')
+        if h:
+            sc = chart_from_json(h['base'])
+            gen.warm(sc)
+            gen.apply_edits(sc, h['edits'])
+            sc2 = chart_from_json(payload['charts'][1])
+            payload['charts'] = [ChartEnc(sc).json, ChartEnc(sc2).json]
+            return {'charts': [sc, sc2]}
+        return super().rebuild(payload)
 
     def run_impl(self, case):
         obs = super().run_impl(case)
